@@ -174,14 +174,12 @@ Lemma offsets_of_steps_exact : forall f steps L, steps_exact f steps ->
                forall A, In A offs <-> (A < L /\ f A < f (A + 1)).
 Proof.
   intros f steps L Hs. unfold offsets_of_steps.
-  destruct (existsb (fun d => d =? 0) (steps L)) eqn:E.
-  - exfalso. apply existsb_exists in E. destruct E as (d & Hd & Hd0).
-    apply N.eqb_eq in Hd0. apply Hs in Hd. lia.
-  - eexists. split; [reflexivity|]. intros A. rewrite in_map_iff. split.
-    + intros (d & <- & Hd). apply Hs in Hd. destruct Hd as (H1 & H2 & H3).
-      replace (d - 1 + 1) with d by lia. split; [lia|exact H3].
-    + intros (H1 & H2). exists (A + 1). split; [lia|]. apply Hs.
-      replace (A + 1 - 1) with A by lia. split; [lia|]. split; [lia|exact H2].
+  rewrite filter_pos_id by (intros d Hd; apply Hs in Hd; lia).
+  eexists. split; [reflexivity|]. intros A. rewrite in_map_iff. split.
+  - intros (d & <- & Hd). apply Hs in Hd. destruct Hd as (H1 & H2 & H3).
+    replace (d - 1 + 1) with d by lia. split; [lia|exact H3].
+  - intros (H1 & H2). exists (A + 1). split; [lia|]. apply Hs.
+    replace (A + 1 - 1) with A by lia. split; [lia|]. split; [lia|exact H2].
 Qed.
 
 (* ------------------------------------------------------------------------------------------ *)
